@@ -2,7 +2,10 @@
 //! drawn from every character class; the whole page is handed to the Coq
 //! model (render = template translated from the .jinja + askama's escaper) and
 //! to the Coq specification (JS string literal evaluation / RCDATA decoding of
-//! every hole).  `node --check` judges the module script of a few pages.
+//! every hole).  Every case also carries the real page of the NEUTRAL
+//! configuration of the same shape (all strings "x"): the context-safety
+//! judgement compares the lexical skeletons of the two real pages and needs no
+//! template model.  `node --check` judges the module script of a few pages.
 use std::fmt::Write as _;
 
 use agv_harness::*;
@@ -22,9 +25,40 @@ const CLASSES: &[&[&str]] = &[
     &["\n", "a\nb", "\r", "a\r\nb", "\u{2028}", "\u{2029}", "\t", "\u{0}"],
     &["é", "漢字", "😀", "naïve café", "\u{feff}x", "\u{10FFFF}"],
     &["", " ", "  x  ", "{{ x }}", "{% if %}", "${x}", "`", "//", "/*", "*/", "%", "#", ";", "="],
+    // a query string followed by each dangerous class (a template that treats the part after '?' differently)
+    &[
+        "/graphql?a=1&b=2",
+        "/graphql?a=1&b='x",
+        "/graphql?x=';alert(1);//",
+        "/g?q=</script><script>alert(1)</script>",
+        "/g?</script>",
+        "/ws?token=it's",
+        "?'",
+        "?\"",
+        "?<!--",
+        "/g?a=\"b\"&c=<d>",
+        "/g?x=\\",
+        "/g?a\nb",
+        "/g?é=漢",
+        "??''",
+        "/a'b?c",
+    ],
 ];
 
+/// '?' then a value from any class: url-ish prefix, query string, dangerous tail
+fn query_value(r: &mut Rng) -> String {
+    let mut s = (*r.pick(&["/graphql", "/", "", "/ws", "wss://example.com/ws", "/api/v1/graphql", "http://localhost:8000/q"])).to_string();
+    s.push('?');
+    s.push_str(*r.pick(&["", "", "a=1&b=", "token=", "q=", "x"]));
+    let class = CLASSES[r.below(CLASSES.len())];
+    s.push_str(*r.pick(class));
+    s
+}
+
 fn rand_value(r: &mut Rng) -> String {
+    if r.chance(1, 6) {
+        return query_value(r);
+    }
     let class = CLASSES[r.below(CLASSES.len())];
     let mut s = (*r.pick(class)).to_string();
     if r.chance(1, 3) {
@@ -82,6 +116,27 @@ fn build(c: &Cfg) -> String {
         _ => Credentials::Omit,
     });
     b.finish()
+}
+
+/// the neutral configuration of the same shape: every configured string is
+/// "x", map keys are k0, k1, ...; version and credentials are kept
+fn neutral(c: &Cfg) -> Cfg {
+    let pairs = |l: &Vec<(String, String)>| (0..l.len()).map(|i| (format!("k{i}"), "x".to_string())).collect::<Vec<_>>();
+    Cfg {
+        endpoint: "x".into(),
+        sub: c.sub.as_ref().map(|_| "x".to_string()),
+        version: c.version.clone(),
+        headers: pairs(&c.headers),
+        has_headers: c.has_headers,
+        ws: pairs(&c.ws),
+        has_ws: c.has_ws,
+        title: c.title.as_ref().map(|_| "x".to_string()),
+        cred: c.cred,
+    }
+}
+
+fn shape_key(c: &Cfg) -> String {
+    format!("{}|{:?}|{}|{}|{}|{}|{}|{}", c.sub.is_some(), c.version, c.has_headers, c.headers.len(), c.has_ws, c.ws.len(), c.title.is_some(), c.cred)
 }
 
 /// order in which a two-entry map was rendered: keys carry the unique plain
@@ -183,6 +238,8 @@ fn main() {
         Cfg { endpoint: "/a\\".into(), ..Default::default() },
         Cfg { endpoint: "\\".into(), sub: Some(");alert(1);//".into()), ..Default::default() },
         Cfg { endpoint: "a\nb".into(), ..Default::default() },
+        // key ends with a backslash: the key literal runs on to the value's opening quote, the value is code
+        Cfg { endpoint: "/".into(), headers: vec![("a\\".into(), ":alert(1)//".into())], has_headers: true, ..Default::default() },
         // finding 2: headers and connection parameters together
         Cfg {
             endpoint: "/".into(),
@@ -197,6 +254,26 @@ fn main() {
         Cfg { endpoint: "/".into(), title: Some("</title><script>alert(1)</script>".into()), ..Default::default() },
         Cfg { endpoint: "/".into(), title: Some("a&b <i>'\"\\ &amp; &#39;\n</TITLE >".into()), ..Default::default() },
         Cfg { endpoint: "/é漢😀\u{2028}".into(), sub: Some("wss://ex.com/ws?x=1".into()), title: Some("é漢😀".into()), cred: 2, ..Default::default() },
+        // a query string followed by each dangerous class, in every kind of script hole
+        Cfg { endpoint: "/graphql?a=1&b=2".into(), ..Default::default() },
+        Cfg { endpoint: "/graphql?a=1&b='x".into(), ..Default::default() },
+        Cfg { endpoint: "/graphql?x=';alert(1);//".into(), ..Default::default() },
+        Cfg { endpoint: "/g?q=</script><script>alert(1)</script>".into(), ..Default::default() },
+        Cfg { endpoint: "?'".into(), ..Default::default() },
+        Cfg { endpoint: "/g?a=\"b\"&c=<d>&e=<!--".into(), ..Default::default() },
+        Cfg { endpoint: "/".into(), sub: Some("/ws?token=it's".into()), ..Default::default() },
+        Cfg { endpoint: "/".into(), sub: Some("/ws?x=</script>".into()), ..Default::default() },
+        Cfg { endpoint: "/graphql?ok=1".into(), sub: Some("?'+alert(1)+'".into()), title: Some("t?'</title>".into()), ..Default::default() },
+        Cfg {
+            endpoint: "/".into(),
+            headers: vec![("x-q?'".into(), "a?b='c</script>".into())],
+            has_headers: true,
+            ..Default::default()
+        },
+        Cfg { endpoint: "/".into(), ws: vec![("p?\"".into(), "?';//".into())], has_ws: true, ..Default::default() },
+        // the same after '?' for known class 3
+        Cfg { endpoint: "/g?x=\\".into(), ..Default::default() },
+        Cfg { endpoint: "/".into(), sub: Some("/ws?a\nb".into()), ..Default::default() },
     ];
     while corpus.len() < n {
         let safe = rng.chance(1, 2);
@@ -223,16 +300,29 @@ fn main() {
     }
     let mut syn_done = 0usize;
     let mut node_missing = false;
+    // the real page of the neutral configuration of each shape, shared as DEF lines
+    let mut shapes: std::collections::HashMap<String, String> = std::collections::HashMap::new();
     for (i, c) in corpus.iter().enumerate() {
         let page = build(c);
+        let nshapes = shapes.len();
+        let nname = shapes
+            .entry(shape_key(c))
+            .or_insert_with(|| {
+                let name = format!("neutral_{nshapes}");
+                writeln!(out, "DEF\t{name}\t{}", g_str(&build(&neutral(c)))).unwrap();
+                name
+            })
+            .clone();
         let kc = |s: &str| s.chars().any(|ch| "&<>\"'\\\n\r".contains(ch));
         let any_kc = kc(&c.endpoint) || c.sub.as_deref().is_some_and(kc) || c.headers.iter().chain(c.ws.iter()).any(|(k, v)| kc(k) || kc(v));
         writeln!(
             out,
-            "CASE\t({}, {})\t{{\"text\":{},\"impl\":{},\"nontrivial\":{}}}",
+            "CASE\t({}, {}, {})\t{{\"text\":{},\"uses\":[{}],\"impl\":{},\"nontrivial\":{}}}",
             g_cfg(c, &page),
             g_str(&page),
+            nname,
             jstr(&describe(c)),
+            jstr(&nname),
             jstr(&format!("page of {} chars", page.chars().count())),
             c.sub.is_some() || c.has_headers || c.has_ws || c.title.is_some()
         )
